@@ -323,6 +323,10 @@ func c04ctx(wire []byte, do bool) (*query_context.Context, error) {
 type c04rig struct {
 	c     *Cache
 	execs int64
+	// kind of answer the fake upstream gives: "" = NOERROR with the marker as an answer
+	// record; "nxdomain" / "nodata" = that kind of negative answer, the marker in the
+	// authority section (where the SOA of a negative answer lives)
+	answer string
 }
 
 func c04newRig(size int) *c04rig {
@@ -341,10 +345,12 @@ type c04obs struct {
 }
 
 func c04marker(r *dns.Msg) (uint64, bool) {
-	for _, rr := range r.Answer {
-		if t, ok := rr.(*dns.TXT); ok && len(t.Txt) == 1 {
-			if v, err := strconv.ParseUint(t.Txt[0], 10, 64); err == nil {
-				return v, true
+	for _, sec := range [][]dns.RR{r.Answer, r.Ns} {
+		for _, rr := range sec {
+			if t, ok := rr.(*dns.TXT); ok && len(t.Txt) == 1 {
+				if v, err := strconv.ParseUint(t.Txt[0], 10, 64); err == nil {
+					return v, true
+				}
 			}
 		}
 	}
@@ -371,8 +377,17 @@ func (r *c04rig) execWire(wire []byte, do bool, id uint64) (o c04obs) {
 		if len(qc.Q().Question) > 0 {
 			name = qc.Q().Question[0].Name
 		}
-		resp.Answer = append(resp.Answer, &dns.TXT{Hdr: dns.RR_Header{Name: name, Rrtype: dns.TypeTXT, Class: dns.ClassINET, Ttl: 1000000},
-			Txt: []string{strconv.FormatUint(id, 10)}})
+		mark := &dns.TXT{Hdr: dns.RR_Header{Name: name, Rrtype: dns.TypeTXT, Class: dns.ClassINET, Ttl: 1000000},
+			Txt: []string{strconv.FormatUint(id, 10)}}
+		switch r.answer {
+		case "nxdomain":
+			resp.Rcode = dns.RcodeNameError
+			resp.Ns = append(resp.Ns, mark)
+		case "nodata":
+			resp.Ns = append(resp.Ns, mark)
+		default:
+			resp.Answer = append(resp.Answer, mark)
+		}
 		qc.SetResponse(resp)
 		return nil
 	})}}, nil)
@@ -402,7 +417,12 @@ func (r *c04rig) exec(q c04q) c04obs {
 // c04pairRun stores a's answer then asks b on a fresh cache. It returns true
 // when b was handed the answer produced for a.
 func c04pairRun(a, b c04q) (foreign bool, desc string, execs int64) {
+	return c04pairRunK(a, b, "")
+}
+
+func c04pairRunK(a, b c04q, answer string) (foreign bool, desc string, execs int64) {
 	r := c04newRig(1024)
+	r.answer = answer
 	defer r.close()
 	oa := r.exec(a)
 	ob := r.exec(b)
@@ -667,6 +687,8 @@ type c04pairJSON struct {
 	Chained bool `json:"chained,omitempty"`
 	// Preset: A was answered by a plugin in front of the cache and renamed to B's name behind it, then B was asked twice
 	Preset bool `json:"preset,omitempty"`
+	// Answer: kind of answer the upstream gave ("" NOERROR with data, "nxdomain", "nodata")
+	Answer string `json:"answer,omitempty"`
 }
 
 type c04state struct {
@@ -703,6 +725,9 @@ func (s *c04state) check(scn string, q c04q, o c04obs) string {
 	kind := c04kind(src, q)
 	if scn == "chained-caches" || scn == "preset-response" {
 		kind = scn + "/" + kind
+	}
+	if strings.HasPrefix(scn, "type-sweep-") {
+		kind = "negative-answer/" + strings.TrimPrefix(scn, "type-sweep-") + "/" + kind
 	}
 	if _, ok := s.foreign[kind]; !ok {
 		s.foreign[kind] = [2]c04q{src, q}
@@ -985,8 +1010,10 @@ func TestVerifC04(t *testing.T) {
 		}
 	}
 	res.Bounds["B1.type_sweeps"] = fmt.Sprintf("%d bases (name,class,flags) x {ascending,descending} x all 65536 types x 2 passes on one cache", len(b1))
+	answerKind := ""
 	sweep := func(scn string, n int, gen func(i int) c04q, desc bool) {
 		r := c04newRig(4 * 65536)
+		r.answer = answerKind
 		defer r.close()
 		for pass := 0; pass < 2; pass++ {
 			for i := 0; i < n; i++ {
@@ -1010,6 +1037,20 @@ func TestVerifC04(t *testing.T) {
 			sweep("type-sweep", 65536, func(i int) c04q { return c04q{N: b.n, T: uint16(i + 1), C: b.c, F: b.f} }, desc)
 		}
 	}
+	// the same sweep with an upstream that gives negative answers (what is stored then has
+	// no answer record of the question's type: nothing but the key ties it to its question)
+	for _, kind := range []string{"nxdomain", "nodata"} {
+		for _, desc := range []bool{false, true} {
+			if !mine() || expired("all negative-answer type sweeps were done") {
+				continue
+			}
+			answerKind = kind
+			b := b1[0]
+			sweep("type-sweep-"+kind, 65536, func(i int) c04q { return c04q{N: b.n, T: uint16(i + 1), C: b.c, F: b.f} }, desc)
+			answerKind = ""
+		}
+	}
+	res.Bounds["B1.negative_answers"] = "the first base again with an upstream answering NXDOMAIN / NODATA (marker in the authority section)"
 	// B2: all 65536 classes
 	type base2 struct {
 		n int
@@ -1195,6 +1236,14 @@ func TestVerifC04(t *testing.T) {
 				"it was answered with a response made for a different question: made for %v, served to %v", p[0], p[0], p[1]), c04pairJSON{A: p[0].json(), B: p[1].json(), Preset: true})
 			continue
 		}
+		if strings.HasPrefix(k, "negative-answer/") {
+			ans := strings.SplitN(k, "/", 3)[1]
+			_, d1, _ := c04pairRunK(p[0], p[1], ans)
+			_, d2, _ := c04pairRunK(p[1], p[0], ans)
+			res.ViolateInput("exec/foreign-answer:"+k, fmt.Sprintf("with an upstream that answers %s: a query was answered with the cached answer of a different question: stored for %v, served to %v.\npair alone: %s\nreverse order: %s", ans, p[0], p[1], d1, d2),
+				c04pairJSON{A: p[0].json(), B: p[1].json(), Answer: ans})
+			continue
+		}
 		if strings.HasPrefix(k, "chained-caches/") {
 			res.ViolateInput("exec/foreign-answer:"+k, fmt.Sprintf("two cache plugins in one sequence with a plugin between them that runs the rest of the chain for another question first (cache -> fork -> cache -> upstream): "+
 				"a query was answered with the cached answer of a different question: stored for %v, served to %v", p[0], p[1]), c04pairJSON{A: p[0].json(), B: p[1].json(), Chained: true})
@@ -1284,8 +1333,8 @@ func c04replay(t *testing.T, in json.RawMessage) {
 	ka, kb := k.key(a), k.key(b)
 	fmt.Printf("A = %v\n    getMsgKey = %x\nB = %v\n    getMsgKey = %x\n", a, ka, b, kb)
 	fmt.Printf("same identity (reference model): %v; same key (real code): %v; differing coordinates: %s\n", a.ident() == b.ident(), ka == kb, c04kind(a, b))
-	f1, d1, _ := c04pairRun(a, b)
-	f2, d2, _ := c04pairRun(b, a)
+	f1, d1, _ := c04pairRunK(a, b, p.Answer)
+	f2, d2, _ := c04pairRunK(b, a, p.Answer)
 	fmt.Println(d1)
 	fmt.Println(d2)
 	if f1 || f2 {
